@@ -4,6 +4,7 @@ import itertools
 from engine import guards as G
 from engine import mir, paths
 from . import common as K
+from . import detectors as D
 from .common import A, fshort
 
 EXPLANATION = (
@@ -118,39 +119,9 @@ def ob_commitment_coverage(run, oid):
     rd = set(n for (_bb, ow, n, _sp) in b.field_reads() if ow == hdr)
     o.check(bool(fields) and rd == fields, "SliceCommitment::new|header-coverage", "reads every field of SliceHeader (%s)" % ", ".join(sorted(fields)), b.span, {"missing": sorted(fields - rd)})
     total = prog.const_int(SH + "SLICE_COMMITMENT_LEN")
-    regions = []
-    for c in b.calls():
-        if c.name.endswith("copy_from_slice"):
-            dst = b.operand_term(c.args[0])
-            src = b.operand_term(c.args[1])
-            rg = [t for t in mir.walk(dst) if isinstance(t, tuple) and t and t[0] == "agg" and t[1].endswith("Range")]
-            if rg:
-                f = dict(rg[0][3])
-                s, e = f["start"], f["end"]
-                if s[0] == "const" and e[0] == "const":
-                    pv = b.provenance(src)
-                    srcname = sorted(n for (ow, n) in pv["fields"] if ow == hdr) or sorted(pv["params"])
-                    regions.append((s[2], e[2], srcname))
-    for (bb, i, dst, rv, sp) in b.assignments():
-        idx = [p for p in dst["p"] if p[0] in ("ci", "i")]
-        if idx and b.local_name(dst["l"]) == "buf" or (idx and dst["p"] and dst["p"][-1][0] in ("i", "ci")):
-            t = b.rvalue_term(rv)
-            pv = b.provenance(t)
-            srcname = sorted(n for (ow, n) in pv["fields"] if ow == hdr) or sorted(pv["params"])
-            p = dst["p"][-1]
-            if p[0] == "ci":
-                regions.append((p[1], p[1] + 1, srcname))
-            elif p[0] == "i":
-                it = b.local_term(p[1])
-                if it[0] == "const":
-                    regions.append((it[2], it[2] + 1, srcname))
-    regions.sort()
-    covered = 0
-    ok = True
-    for (s, e, _n) in regions:
-        if s != covered:
-            ok = False
-        covered = e
+    regions = D.written_regions(b, hdr)
+    ok = D.contiguous(regions, total)
+    covered = total if ok else -1
     o.check(ok and covered == total, "SliceCommitment::new|layout", "written ranges are contiguous, disjoint and fill all %s bytes" % total, b.span, {"regions": regions})
     srcs = [tuple(n) for (_s, _e, n) in regions]
     o.check(("slot",) in srcs and ("slice_index",) in srcs and ("is_last",) in srcs and any("slice_root" in n for n in srcs), "SliceCommitment::new|sources",
